@@ -199,6 +199,13 @@ def has(body, kinds):
 # programs with a hand-derived trace: defers of a function called FROM a deferred expression, defers in a method, and defers in an
 # iterator body (run after every step, also the step that ends with StopIterErr)
 EXPECT = [
+    # the guard of `defer e if c` is evaluated when the statement is reached (it sees the state of that moment, its effects are
+    # in statement order, a raise aborts the body there); only e waits for the exit
+    ("guard_of_defer_is_evaluated_when_reached",
+     'chk := {|name, v| "guard #{name}".p; v}\nf := {|x|\n  "s1".p\n  defer "d1".p if chk("g1", true)\n  "s2".p\n  defer "d2".p if chk("g2", false)\n  "s3".p\n  x\n}\nf(1).p\n'
+     'g := {|x|\n  opened := true\n  defer "closing".p if opened\n  opened := false\n  defer "never".p if opened\n  x\n}\ng(2).p\n'
+     'h := {|x| defer "d".p if nosuchname; "after".p; x}\nh.try.{|fn| fn(3)}.A.p\n',
+     "s1\nguard g1\ns2\nguard g2\ns3\nd1\n1\nclosing\n2\n[nil, [NameErr: name `nosuchname` is not defined]]\n"),
     ("defer_calls_function_with_defers",
      'cleanup := {|| defer "cleanup defer 1".p; defer "cleanup defer 2".p; 0}\nf := {|| defer cleanup(); defer "f defer 2".p; defer "f defer 3".p; "body".p}\nf()\n',
      "body\ncleanup defer 1\ncleanup defer 2\nf defer 2\nf defer 3\n"),
